@@ -34,7 +34,9 @@ PROPS = {
         "suites": [{"name": "disp", "stateful": True, "quick": 120, "thorough": 1500, "thorough_seeds": 3}],
         "rule": "disp: for sizes 1..12,15..17,…,1023..1025,2000,0,-5 and random 1..300: sequences of 3*S+40 lookups/purges over a "
                 "key population of 1.5*S (40% on a hot quarter), judged op by op against the LRU model (entry identity = first-seen "
-                "index), resident count read by reflection at the end. non-trivial = get/purge/count lines; distinct = distinct lines.",
+                "index), resident count (recency list and table of every shard) read by reflection at the end; the two caches of a sequence are "
+                "built through cache.ResetDispatchers (empty configuration first), 35% of the new entries start a fetch, 1% of the ops are a "
+                "reload naming the same caches with other sizes. non-trivial = get/purge/count lines; distinct = distinct lines.",
         "assumptions": ["lookups and purges of one shard are serialised by the shard mutex (extracted lock facts, C20)"],
         "trusted_base": ["groupcache lru modelled from its source and compared in the disp suite"],
     },
@@ -167,7 +169,8 @@ PROPS["C12"] = {
             "standard decoders AND pike's own; dec: gzip/br/zst/snz streams from reference encoders through Decompress; lz4: blocks from "
             "lz4.CompressBlock at every ratio plus hand-made run-length blocks (extended lengths up to 600), judged ALSO by the Lean "
             "block-format decoder and the Lean model of pike's growing-buffer wrapper; mut: bit flips/truncation/splices on streams of "
-            "all five formats under recover + 20 s watchdog. non-trivial = every line; distinct = distinct lines.",
+            "all five formats and hand-made zstd/snappy headers declaring huge sizes, under recover + 20 s watchdog; the last four encoder "
+            "and decoder outputs are checked again after later calls (retained). non-trivial = every line; distinct = distinct lines.",
     "assumptions": ["PARTIAL BY NATURE: the round trips of gzip/br/zstd/snappy and no-panic on malformed input are library behaviour: assumed (Resp.CodecsOK) and exercised, not proved",
                     "LZ4: the library decodes a block iff the destination holds the output (modelled from its documentation, compared in the suite)"],
     "trusted_base": ["compress/gzip, andybalholm/brotli, pierrec/lz4, klauspost/compress/zstd, golang/snappy"],
@@ -180,8 +183,10 @@ PROPS["C17"] = {
             "list needing YAML quoting (yes, null, 123, 'a: b', ~, true, 0x1f, -, #x, [a], {b}, quotes, leading/trailing blank, tab, 1e3, off, "
             "non-ASCII), optional fields set or unset; then exactly one of 18 defects (4 dangling references, 14 malformed fields) or none. "
             "Observed: Validate's verdict class; for accepted ones, applied to the real registries, one probe request per server on two "
-            "(host, uri) pairs (never 'cache dispatcher not found' / 'upstream not found'), and Write -> Read equality. non-trivial = "
-            "every case; distinct = distinct (defect, configuration).",
+            "(host, uri) pairs (never 'cache dispatcher not found' / 'upstream not found') — every other accepted configuration is applied "
+            "to the servers still running with the previous one —, Write -> Read equality and Read -> modify -> Write -> Read; one directed "
+            "history with the real file watcher (two saves 150 ms apart, three rounds). non-trivial = every case; distinct = distinct "
+            "(defect, configuration).",
     "assumptions": ["PARTIAL: the struct-tag validators (go-playground/validator) and yaml.v2 are library code: they enter the theorems as structOK / the Yaml round-trip hypothesis and are compared in the suite",
                     "servers name a cache (struct tag 'required')"],
     "trusted_base": ["go-playground/validator", "gopkg.in/yaml.v2", "time.ParseDuration, humanize.ParseBytes, regexp.Compile, url.Parse in the custom validators"],
@@ -194,8 +199,11 @@ PROPS["C19"] = {
     "rule": "upsel: 1-4 real local servers (65% up, 35% backup) behind pike's NewUpstreamServer + target picker + elton proxy, every policy "
             "(first/random/roundRobin/leastconn/unset); three phases of 1-7 sequential requests, between phases one or two servers are "
             "stopped/restarted (listener closed/reopened) and given the status the checker would set; thorough adds a mode that only flips "
-            "the listeners and waits 6.5 s for the periodic checker. Observed: which server answered, status code. non-trivial = every "
-            "request; distinct = distinct (policy, vector, counter).",
+            "the listeners and waits 6.5 s for the periodic checker (two such sequences also in the quick tier). The group is built through the "
+            "registry next to a second group and reloaded mid-sequence in half of the cases; 'healthy' is the pool's own status. Directed "
+            "histories through the whole request path with the real proxy: all servers down (three requests for one URL, then recovery), "
+            "round robin over 2 and 4 primaries with first-time GETs, a server that listens but fails the HTTP check on path '/'. "
+            "Observed: which server answered, status code. non-trivial = every request; distinct = distinct (policy, vector, counter).",
     "assumptions": ["PARTIAL: the health vector is an input of the model; the checker's timing (5 s interval, 5 probes, 2 failures) is library runtime behaviour exercised only by the settle mode",
                     "round-robin window not crossing the 2^32 counter wrap"],
     "trusted_base": ["github.com/vicanso/upstream health checking", "elton proxy middleware, httputil.ReverseProxy"],
@@ -227,15 +235,18 @@ PROPS["C16"] = {
             "headers, cache/compress binding, min length set or unset, filter set or unset) — applied to the REAL registries in main.update's "
             "order; after every update the whole observable state is read through the exported getters (levels, dispatcher identity, "
             "upstream options, location.Get, server.GetCache/GetLocations/GetCompress) and compared with the model's state AND with a "
-            "freshly started model instance. non-trivial = every update; distinct = distinct histories.",
+            "freshly started model instance; 35% of the updates change exactly one field of one server; one directed history with REAL "
+            "listeners (4 servers started, an update removes 3 and adds 1, the removed ones refuse connections after the graceful-close "
+            "period). loc: the running server behind the handler chain is updated to another location list and another cache. config: the "
+            "file-watcher history. non-trivial = every update; distinct = distinct histories.",
     "assumptions": ["each name / address occurs once per configuration",
-                    "listener sockets and graceful close under traffic are outside the model (servers are not started in the suite)",
+                    "graceful close under traffic is outside the model (servers are started only in the directed listener history)",
                     "retained cached entries legitimately carry headers added by the old location configuration"],
     "trusted_base": ["sync.Map", "net.Listen / elton GracefulClose"],
 }
 
 PROPS["C15"] = {
-    "suites": [{"name": "proxy", "stateful": True, "seq_marker": "case", "quick": 1200, "thorough": 25000, "thorough_seeds": 3}],
+    "suites": [{"name": "proxy", "stateful": True, "seq_marker": "case", "quick": 1200, "thorough": 6000, "thorough_seeds": 3}],
     "trip_re": "upstream_saw_diff.*|conditional_leaked|partial_replayed|no_304|response_header_missing|status_or_header_changed|upstream_not_contacted",
     "rule": "proxy: location configuration (rewrites none / '/api/*:/$1' / '/old:/new' / two chained rules; 0-2 added request headers incl. one "
             "colliding with a client header; 0-2 added response headers incl. one colliding with an upstream header; 0-2 added query "
